@@ -5,7 +5,7 @@
    (state after an arbitrary label list — any interleaving of any number of clients — from any
    well-formed store). The ghost log is newest first. *)
 From KB Require Import Model.RevSys Model.KeySys Model.C01Cases Model.C02Cases.
-From KB Require Import Proofs.RevSys Proofs.KeySys Proofs.KeySysLog Proofs.KeySysChain Proofs.KeySysProps Proofs.C02Cases Proofs.KeySysUniq Proofs.SchedCases Proofs.SchedLink Proofs.KeySysHdr Proofs.TsoImage.
+From KB Require Import Proofs.RevSys Proofs.KeySys Proofs.KeySysLog Proofs.KeySysChain Proofs.KeySysProps Proofs.C02Cases Proofs.KeySysUniq Proofs.SchedCases Proofs.SchedLink Proofs.KeySysHdr Proofs.TsoImage Proofs.SchedRt.
 Local Open Scope N_scope.
 
 (* RevSys: no two allocations ever return the same revision, whatever the threads and the sequencer do *)
@@ -170,6 +170,15 @@ Theorem C02_answered_revisions_unique : forall cidx0 ls d0 store, wf_store d0 st
   NoDup (ret_revs (log s)) /\ forall x, In x (ret_revs (log s)) -> d0 < x <= dealt (rs s).
 Proof. exact ret_revs_unique. Qed.
 Print Assumptions C02_answered_revisions_unique.
+
+(* proved clause realtime_ok: if record a was answered before record b was invoked (by step numbers; in the same step
+   for one thread), the revision read off a's answer is below the header of b's answer. The proof couples the
+   oracle's walk with the model run (Proofs/SchedRt.v): the header of an answer is at least a revision of the
+   request's own window, and every revision of a window is above every revision answered before the window opened *)
+Theorem C02_sched_oracle_realtime_sound_partial : forall c, sched_check c = true ->
+  realtime_ok (case_records c) = true.
+Proof. exact sched_realtime_sound_checked. Qed.
+Print Assumptions C02_sched_oracle_realtime_sound_partial.
 
 (* proved clause records_complete: every request of the case got exactly one record *)
 Theorem C02_sched_oracle_records_complete_sound_partial : forall c, sched_check c = true ->
